@@ -72,6 +72,9 @@ type Model struct {
 	LeafConstraint *types.Named
 
 	MaxPrefixLen int64
+
+	defsMemo  map[ast.Node]map[*types.Var]*defInfo
+	leafConst *ast.Ident
 }
 
 func (m *Model) pos(p token.Pos) string { return m.L.position(p) }
